@@ -14,6 +14,7 @@
                              preamble assigns on every path and the tail reads; any other name the tail reads is a Problem)
   find_root                  -> gen_find_root_c02 (tree : res) (resource : rnode) : rnode
   traversal_path             -> gen_traversal_path (p : text) : result (list text)      (for a str argument)
+  _join_path_tuple           -> gen_join_path_tuple_c02 (t : list text) : result text       (for a tuple of str)
 
 Fail-closed: a statement outside the SUBSET, an expression outside the PRIMITIVE TABLE, a typing surprise, a
 changed module-level binding the table relies on -> Problem; the caller records it as a broken tie and emits the
@@ -72,6 +73,13 @@ file still type-checks.  (Adapted from harness/c11/translate.py; the control-flo
   unquote_bytes_to_wsgi(b)   unquote_to_wsgi b = Lib/Percent.unquote (urllib unquote_to_bytes, then latin-1: code point =
                              byte); the function itself stays shape-pinned
   traversal_path_info(x)     gen_traversal_path_info x
+  x and y or z               z when x is falsy or y is falsy, else y (y may raise: only evaluated when x is truthy)
+  [quote_path_segment(x) for x in t]   rmap_r (quote_segment_r path_segment_safe) t : the first exception propagates;
+                             quote_path_segment with its DEFAULT safe set (PATH_SEGMENT_SAFE, a regenerated fact) for a
+                             str segment = UTF-8 then urllib quote; the function itself stays shape-pinned, its
+                             (segment, safe) dictionary is transparent (C02_memo_st_transparent)
+  'c'.join(<raising list>)   rbind .. (fun l => Ok (join "c" l))
+  a parameter named `tuple`  allowed for _join_path_tuple (it shadows the builtin, which the function does not call)
   y.decode('utf-8')          rbind y utf8_decode_r : result str (strict CPython UTF-8 = Lib/Utf8.decode)
   @lru_cache(n)              erased: memoisation is transparent (Proofs/C02_memo.v); n is a regenerated fact
   split_path_info(x)         gen_split_path_info x        decode_path_info(x)   gen_decode_path_info x
@@ -107,7 +115,8 @@ import os
 # ResourceTreeTraverser.__call__ is translated as a whole (preamble ; tail)
 TRANSLATED = ['pyramid/traversal.py:split_path_info', 'pyramid/traversal.py:decode_path_info',
               'pyramid/traversal.py:traversal_path_info', 'pyramid/traversal.py:ResourceTreeTraverser.__call__',
-              'pyramid/traversal.py:find_root', 'pyramid/traversal.py:traversal_path']
+              'pyramid/traversal.py:find_root', 'pyramid/traversal.py:traversal_path',
+              'pyramid/traversal.py:_join_path_tuple']
 
 HERE = os.path.dirname(os.path.abspath(__file__))
 FALLBACK = os.path.join(HERE, 'gen_fallback.json')
@@ -413,6 +422,7 @@ DICT_TY = {'context': NODE, 'virtual_root': NODE, 'root': NODE, 'view_name': TEX
 MODULE_FUNCS = {'split_path_info': ('gen_split_path_info', SEGS), 'decode_path_info': ('gen_decode_path_info', RES(TEXT))}
 BUILTINS = ('tuple', 'len', 'KeyError', 'AttributeError', 'UnicodeDecodeError', 'isinstance', 'str')
 RESERVED = set(MODULE_FUNCS) | set(BUILTINS) | {'URLDecodeError', 'is_nonstr_iter', 'lineage', 'unquote_bytes_to_wsgi',
+                                                 'quote_path_segment',
                                                  'traversal_path_info'}
 SPLIT_AT = 'root = self.root'
 # the variables that are live across the split of __call__ (assigned by the preamble, read by the tail)
@@ -430,6 +440,8 @@ FUNCS = [
          sig='(q : request) : result (text * text * list text * list text * Z)', default='Unsupported'),
     dict(qual='traversal_path', gen='gen_traversal_path', ret=RES(SEGS), params=[(V('p'), TEXT)],
          sig='(p : text) : result (list text)', default='Unsupported'),
+    dict(qual='_join_path_tuple', gen='gen_join_path_tuple_c02', ret=RES(TEXT), params=[(V('t'), SEGS)],
+         sig='(t : list text) : result text', default='Unsupported', shadow_ok=('tuple',), listcomp=True),
     dict(qual='find_root', gen='gen_find_root_c02', ret=NODE, params=[(V('resource'), NODE)],
          sig='(tree : res) (resource : rnode) : rnode', default='resource'),
     dict(qual='ResourceTreeTraverser.__call__', gen='gen_call_tail', ret=TDICT, tail_from=SPLIT_AT,
@@ -470,8 +482,10 @@ class FnTranslator:
         for n in ast.walk(fn):
             if isinstance(n, ast.Name) and isinstance(n.ctx, (ast.Store, ast.Del)) and n.id in RESERVED:
                 raise Problem('the name %s of the primitive table is rebound inside the function' % n.id)
-            if isinstance(n, ast.arg) and n.arg in RESERVED:
+            if isinstance(n, ast.arg) and n.arg in RESERVED and n.arg not in spec.get('shadow_ok', ()):
                 raise Problem('the name %s of the primitive table is a parameter' % n.arg)
+            if isinstance(n, ast.ListComp) and spec.get('listcomp'):
+                continue
             if isinstance(n, (ast.Global, ast.Nonlocal, ast.Lambda, ast.ListComp, ast.SetComp, ast.DictComp,
                               ast.GeneratorExp, ast.NamedExpr, ast.Await, ast.Yield, ast.YieldFrom, ast.While,
                               ast.With)) or \
@@ -625,6 +639,24 @@ class FnTranslator:
 
     def value_expr(self, n, env):
         """an expression in VALUE position: additionally `a or b` (the first operand unless it is falsy)"""
+        if isinstance(n, ast.BoolOp) and isinstance(n.op, ast.Or) and len(n.values) == 2 \
+                and isinstance(n.values[0], ast.BoolOp) and isinstance(n.values[0].op, ast.And) \
+                and len(n.values[0].values) == 2:
+            # the pre-ternary idiom `x and y or z`: z when x is falsy (then `x and y` is x, falsy) or y is falsy, else y
+            xo, xt = self.expr(n.values[0].values[0], env)
+            yo, yt = self.expr(n.values[0].values[1], env)
+            zo, zt = self.expr(n.values[1], env)
+            if xo is None or yo is None or zo is None or xt not in (SEGS, SEGSOWN, TEXT) or zt != TEXT \
+                    or yt not in (TEXT, RES(TEXT)):
+                raise Problem('`x and y or z` outside the table (x a tuple/str, y a str or a raising str, z a str): %s' % u(n))
+            xfalsy = A('is_nil', [xo]) if xt in (SEGS, SEGSOWN) else A('text_eqb', [xo, K('[]')])
+            if yt == TEXT:
+                return If(xfalsy, zo, If(A('text_eqb', [yo, K('[]')]), zo, yo)), TEXT
+            if not isinstance(self.spec['ret'], tuple):
+                raise Problem('a call that may raise in a function that is not modelled as raising: %s' % u(n))
+            b = self.fresh('v')
+            okz = A('Ok', [zo])
+            return If(xfalsy, okz, MRes(yo, b, If(A('text_eqb', [V(b), K('[]')]), okz, A('Ok', [V(b)])), None)), RES(TEXT)
         if isinstance(n, ast.BoolOp) and isinstance(n.op, ast.Or) and len(n.values) == 2:
             ao, at = self.value_expr(n.values[0], env)
             bo, bt = self.value_expr(n.values[1], env)
@@ -650,7 +682,7 @@ class FnTranslator:
         raise Problem('a %s as a match-dictionary value' % ty)
 
     def ret(self, value, env, s):
-        obj, ty = self.expr(value, env)
+        obj, ty = self.value_expr(value, env)
         want = self.spec['ret']
         if obj is None:
             raise Problem('return of an unmodelled value: %s' % u(s))
@@ -989,6 +1021,19 @@ class FnTranslator:
             if self.is_vh_key(n.slice, env) and '$vh_raw' in env:
                 return env['$vh_raw']
             raise Problem('environ[..] outside the table (only environ[self.VH_ROOT_KEY] under a membership test): %s' % u(n))
+        if isinstance(n, ast.ListComp):
+            g = n.generators[0] if len(n.generators) == 1 else None
+            ok = g is not None and not g.ifs and not g.is_async and isinstance(g.target, ast.Name) \
+                and isinstance(n.elt, ast.Call) and isinstance(n.elt.func, ast.Name) \
+                and n.elt.func.id == 'quote_path_segment' and n.elt.func.id not in env and not n.elt.keywords \
+                and len(n.elt.args) == 1 and isinstance(n.elt.args[0], ast.Name) and n.elt.args[0].id == g.target.id
+            if not ok:
+                raise Problem('list comprehension outside the table (only [quote_path_segment(x) for x in t]): %s' % u(n))
+            to, tt = self.expr(g.iter, env)
+            if tt not in (SEGS, SEGSOWN) or to is None:
+                raise Problem('comprehension over a %s: %s' % (tt, u(n)))
+            self.used.add('quote_path_segment')
+            return A('rmap_r', [A('quote_segment_r', [K('path_segment_safe')]), to]), RES(SEGS)
         if isinstance(n, ast.Dict):
             return self.dict_lit(n, env), TDICT
         if isinstance(n, ast.Call):
@@ -1054,6 +1099,8 @@ class FnTranslator:
                 return A('md_get', [K(MD_KEYS[n.args[0].value]), xo, self.as_mval(do, dt)]), MVAL
             if meth == 'join' and xt == TEXT and isinstance(n.func.value, ast.Constant) and len(n.args) == 1:
                 ao, at = self.expr(n.args[0], env)
+                if ao is not None and at == RES(SEGS):
+                    return A('rbind', [ao, K('(fun l_ => Ok (join %s l_))' % paren(xo, 0))]), RES(TEXT)
                 if at != SEGS or ao is None:
                     raise Problem('str.join of a %s: %s' % (at, u(n)))
                 return A('join', [xo, ao]), TEXT
@@ -1173,8 +1220,10 @@ def check_globals(tree, used, problems):
             'URLDecodeError': ['from pyramid.exceptions import URLDecodeError'],
             'is_nonstr_iter': ['from pyramid.util import is_nonstr_iter'],
             'lineage': ['from pyramid.location import lineage'], 'find_root': ['def'],
-            'unquote_bytes_to_wsgi': ['def'], 'traversal_path': ['def']}
-    for nm in sorted(set(used) | {'split_path_info', 'decode_path_info', 'traversal_path_info', 'find_root', 'traversal_path'}):
+            'unquote_bytes_to_wsgi': ['def'], 'traversal_path': ['def'], 'quote_path_segment': ['def'],
+            '_join_path_tuple': ['def']}
+    for nm in sorted(set(used) | {'split_path_info', 'decode_path_info', 'traversal_path_info', 'find_root', 'traversal_path',
+                                  '_join_path_tuple'}):
         if nm.startswith('self.'):
             continue
         got = binds.get(nm, [])
